@@ -282,7 +282,7 @@ theorem mapM_parts_spec (f : Expr → R Expr) (hf : ∀ e r, WF e → f e = .ok 
     intro ps' _ h
     simp only [List.mapM_nil, pure, Except.pure] at h
     cases h
-    exact ⟨by intro p hp; cases hp, fun _ h => h, fun _ => rfl⟩
+    exact ⟨(by intro p hp; cases hp), fun _ h => h, fun _ => rfl⟩
   | cons q tl ih =>
     intro ps' hw h
     rw [List.mapM_cons] at h
@@ -326,7 +326,7 @@ theorem vecFlat_spec (f : Expr → R Expr) (s : Nat) (hf : ∀ e r, WF e → f e
     intro acc early acc' _ ha h
     simp only [vecFlat] at h
     cases h
-    exact ⟨by intro ee h; cases h, fun _ => ⟨ha, by intro h; rcases h with h | h; exact h; exact absurd rfl h⟩⟩
+    exact ⟨(by intro ee h; cases h), fun _ => ⟨ha, (by intro h; rcases h with h | h; exact h; exact absurd rfl h)⟩⟩
   | cons x tl ih =>
     intro acc early acc' hl ha h
     simp only [vecFlat] at h
@@ -341,9 +341,9 @@ theorem vecFlat_spec (f : Expr → R Expr) (s : Nat) (hf : ∀ e r, WF e → f e
       split at h
       · simp only [pure, Except.pure] at h
         cases h
-        exact ⟨by intro e' h'; cases h'; exact ⟨hee.1, hees⟩, by intro h'; cases h'⟩
+        exact ⟨(by intro e' h'; cases h'; exact ⟨hee.1, hees⟩), (by intro h'; cases h')⟩
       · split at h
-        · rename_i l' s' f'
+        · rename_i l' s' f' _
           have hw := hee.1
           simp only [WF] at hw
           simp only [size_vec] at hees
@@ -368,8 +368,6 @@ theorem vecFlat_spec (f : Expr → R Expr) (s : Nat) (hf : ∀ e r, WF e → f e
           have := (List.append_eq_nil_iff.mp hnil).2
           cases this
 
-theorem vecIn_total (eq : Expr → Expr → R Expr) (e : Expr) (l : List Expr) : True := trivial
-
 theorem vecDedup_spec (eq : Expr → Expr → R Expr) (P : Expr → Prop) :
     ∀ (l acc acc' : List Expr), (∀ x ∈ l, P x) → (∀ x ∈ acc, P x) → vecDedup eq l acc = .ok acc' →
       (∀ x ∈ acc', P x) ∧ ((acc ≠ [] ∨ l ≠ []) → acc' ≠ []) := by
@@ -379,7 +377,7 @@ theorem vecDedup_spec (eq : Expr → Expr → R Expr) (P : Expr → Prop) :
     intro acc acc' _ ha h
     simp only [vecDedup] at h
     cases h
-    exact ⟨ha, by intro h; rcases h with h | h; exact h; exact absurd rfl h⟩
+    exact ⟨ha, (by intro h; rcases h with h | h; exact h; exact absurd rfl h)⟩
   | cons x tl ih =>
     intro acc acc' hl ha h
     simp only [vecDedup] at h
@@ -1576,6 +1574,252 @@ theorem eqn2_step (opts : Opts) (o : Op) (l r : Expr) (size : Nat) (sf : Bool) (
       · exact ih.eqn2snd opts o1 l1 rv rs rf size sf prop hw1
     · exact ih.eqn2tail opts o1 l1 r1 size sf prop hw1
 
+theorem simplify_step (o : Opts) (e : Expr) (he : WF e) : Post e.size (simplify cfg (fuel + 1) o e) := by
+  rw [simplify.eq_def]; dsimp only
+  split
+  · exact Post_ok he rfl
+  · exact Post_ok he rfl
+  · exact Post_ok he rfl
+  · exact Post_ok he rfl
+  · exact Post_ok he rfl
+  · exact Post_error _ _
+  · exact Post_error _ _
+  · -- slc
+    rename_i x pos size sf ref ety
+    simp only [WF] at he
+    obtain ⟨hx, hsz, hps⟩ := he
+    simp only [size_slc]
+    apply Post_bind; intro x' hx'
+    obtain ⟨hxw, hxs⟩ := ih.simplify o x hx x' hx'
+    have hself : Post size (pure (Expr.slc x' pos size sf ref ety)) :=
+      Post_pure (by simp only [WF]; exact ⟨hxw, hsz, by omega⟩) rfl
+    have hgi : ∀ y, WF y → Post size (getitem cfg fuel y (pos : Int) ((pos + size : Nat) : Int)) := by
+      intro y hy
+      exact Post_of_eq (ih.getitem y _ _ hy) (by omega)
+    split
+    · exact Post_pure (WF_mkTop hsz) rfl
+    · split
+      · apply Post_bind; intro res hres
+        have := hgi x' hxw res (by simpa using hres)
+        exact Post_pure ((WF_setSf _ _).mpr this.1) (by rw [size_setSf]; exact this.2)
+      · split
+        · exact Post_error _ _
+        · cases x' with
+          | op xo xl xr xs xf xp =>
+            dsimp only
+            obtain ⟨_, _, hxl, hxr, hxs', hxeq⟩ := (WF_op_iff _ _ _ _ _ _).mp hxw
+            split
+            · rename_i hc
+              apply Post_bind; intro r hr
+              apply Post_bind; intro l hl
+              have h1 := hgi xr hxr r (by simpa using hr)
+              have h2 := hgi xl hxl l (by simpa using hl)
+              have := ih.callOp xo l r h2.1 h1.1 (by intro _; rw [h1.2, h2.2])
+              refine Post_of_eq this ?_
+              simp only [Bool.or_eq_true, beq_iff_eq, Bool.and_eq_true, decide_eq_true_eq] at hc
+              rcases hc with hc | hc
+              · have hne : xo ≠ Op.mul2 := by intro h; subst h; simp [Op.type] at hc
+                simp [resSize, hc, hne, h2.2]
+              · rcases hc.1 with rfl | rfl <;> simp [resSize, Op.type, h2.2]
+            · exact hself
+          | uop xo xr xs xf xp =>
+            dsimp only
+            simp only [WF] at hxw
+            split
+            · apply Post_bind; intro r hr
+              have h1 := hgi xr hxw.2.1 r (by simpa using hr)
+              exact Post_of_eq (ih.callUop xo r h1.1) h1.2
+            · exact hself
+          | vec l s f =>
+            dsimp only
+            simp only [WF] at hxw
+            apply Post_bind; intro l' hl'
+            have := mapM_spec (fun y => getitem cfg fuel y (pos : Int) ((pos + size : Nat) : Int)) (fun y => WF y) (fun y => WF y ∧ y.size = size)
+              (by intro y r hy h; exact hgi y hy r h) l l' (fun y hy => ((WFList_iff l s).mp hxw.2.2 y hy).1) (by simpa using hl')
+            intro v hv
+            exact mkVec_spec l' size v hsz (by intro h; have h2 := this.2; rw [h] at h2; exact hxw.2.1 (List.length_eq_zero_iff.mp h2.symm)) this.1 hv
+          | _ => exact hself
+  · -- comp
+    rename_i size sf parts
+    simp only [WF] at he
+    obtain ⟨hpos, ht, hwp⟩ := he
+    simp only [size_comp]
+    apply Post_bind; intro parts' hp'
+    obtain ⟨h1, h2, h3⟩ := mapM_parts_spec (simplify cfg fuel o)
+      (fun e r he h => ih.simplify o e he r h) parts parts' ((WFParts_iff _).mp hwp) hp'
+    have hd' : Disj size parts' := by
+      refine ⟨h2 size ht.1, fun b => ?_⟩
+      show cnt b parts' ≤ 1
+      rw [h3 b]; exact ht.disj.cnt_le b
+    obtain ⟨r1, r2, r3⟩ := restruct_spec size parts' hd' h1
+    have htr : Tiles size (restruct parts') :=
+      tiles_of_disj_cnt r1 (fun x hx => by rw [r3 x, h3 x]; exact ht.2 x hx)
+    split
+    · rename_i p hf
+      exact Post_pure (r2 _ (findKey_some_mem hf)) (htr.whole_key hf)
+    · exact Post_pure (by simp only [WF]; exact ⟨hpos, htr, (WFParts_iff _).mpr r2⟩) rfl
+  · -- tst
+    rename_i t l r size sf
+    simp only [WF] at he
+    obtain ⟨hpos, ht, hl, hr, ht1, hls, hrs⟩ := he
+    simp only [size_tst]
+    apply Post_bind; intro t' ht'
+    obtain ⟨htw, hts⟩ := ih.simplify o t ht t' ht'
+    split
+    · apply Post_bind; intro v hv
+      have hvs := mkVec_spec [l, r] size v hpos (by simp) (by
+        intro y hy; simp at hy; rcases hy with rfl | rfl
+        · exact ⟨hl, hls⟩
+        · exact ⟨hr, hrs⟩) hv
+      exact Post_of_eq (ih.simplify {} v hvs.1) hvs.2
+    · apply Post_bind; intro l' hl'
+      obtain ⟨hlw, hls'⟩ := ih.simplify o l hl l' hl'
+      apply Post_bind; intro c1 _
+      split
+      · exact Post_pure hlw (by omega)
+      · apply Post_bind; intro r' hr'
+        obtain ⟨hrw, hrs'⟩ := ih.simplify o r hr r' hr'
+        apply Post_bind; intro c0 _
+        split
+        · exact Post_pure hrw (by omega)
+        · apply Post_bind; intro c _
+          split
+          · exact Post_pure hlw (by omega)
+          · exact Post_pure (by simp only [WF]; exact ⟨hpos, htw, hlw, hrw, by omega, by omega, by omega⟩) rfl
+  · -- op
+    rename_i oo l r size sf prop
+    obtain ⟨hpos, hp, hl, hr, hs, heq⟩ := (WF_op_iff _ _ _ _ _ _).mp he
+    simp only [size_op]
+    apply Post_bind; intro l' hl'
+    obtain ⟨hlw, hls⟩ := ih.simplify o l hl l' hl'
+    apply Post_bind; intro r' hr'
+    obtain ⟨hrw, hrs⟩ := ih.simplify o r hr r' hr'
+    have hw' : WF (.op oo l' r' size sf prop) := by
+      rw [WF_op_iff]
+      exact ⟨hpos, hp, hlw, hrw, by rw [resSize_congr oo hls]; exact hs, by intro h; rw [hls, hrs]; exact heq h⟩
+    split
+    · rename_i hc
+      simp only [Bool.and_eq_true, decide_eq_true_eq, bne_iff_ne, ne_eq] at hc
+      have ht : oo.type < 4 := by omega
+      have hne8 : oo.type ≠ 8 := by omega
+      have hlr : l'.size = r'.size := by rw [hls, hrs]; exact heq hne8
+      -- the swapped node is still well-formed
+      have hswap : WF (.op oo r' l' size sf prop) := by
+        rw [WF_op_iff]
+        exact ⟨hpos, hp, hrw, hlw, by rw [resSize_congr oo hlr.symm, resSize_congr oo hls]; exact hs, fun _ => hlr.symm⟩
+      have hsub : oo = Op.sub → ∀ nr, WF nr → nr.size = r'.size → WF (.op Op.add nr l' size sf prop) := by
+        intro h nr hn hns
+        subst h
+        rw [WF_op_iff]
+        refine ⟨hpos, by simpa [Op.type] using hp, hn, hlw, ?_, fun _ => by omega⟩
+        rw [hs]; simp [resSize, Op.type]; omega
+      split
+      · apply Post_pure
+        · split
+          · exact hlw
+          · exact WF_mkTop hpos
+        · split
+          · rename_i h; simpa using h
+          · rfl
+      · split
+        · apply Post_pure
+          · split
+            · exact hrw
+            · exact WF_mkTop hpos
+          · split
+            · rename_i h; simpa using h
+            · rfl
+        · split
+          · split
+            · refine Post_of_eq (ih.callOp oo l' r' hlw hrw (by intro h; omega)) ?_
+              rw [resSize_congr oo hls]; exact hs.symm
+            · split
+              · rename_i hm
+                simp only [beq_iff_eq] at hm
+                apply Post_bind; intro nr hnr
+                have := ih.apiNeg r' hrw nr hnr
+                exact ih.eqn2 o Op.add nr l' size sf prop (hsub hm nr this.1 this.2)
+              · exact ih.eqn2 o oo r' l' size sf prop hswap
+          · split
+            · split
+              · rename_i hm
+                simp only [beq_iff_eq] at hm
+                apply Post_bind; intro nr hnr
+                have := ih.apiNeg r' hrw nr hnr
+                exact ih.eqn2 o Op.add nr l' size sf prop (hsub hm nr this.1 this.2)
+              · exact ih.eqn2 o oo r' l' size sf prop hswap
+            · exact ih.eqn2 o oo l' r' size sf prop hw'
+    · exact ih.eqn2 o oo l' r' size sf prop hw'
+  · -- uop
+    rename_i oo r size sf prop
+    simp only [WF] at he
+    simp only [size_uop]
+    apply Post_bind; intro r' hr'
+    obtain ⟨hrw, hrs⟩ := ih.simplify o r he.2.1 r' hr'
+    split
+    · exact Post_pure hrw (by omega)
+    · exact ih.eqn1 oo r' size sf prop hrw (by omega)
+  · -- vec
+    rename_i l size sf
+    simp only [WF] at he
+    obtain ⟨hpos, hne, hwl⟩ := he
+    simp only [size_vec]
+    apply Post_bind; intro t ht
+    obtain ⟨early, l1⟩ := t
+    obtain ⟨f1, f2⟩ := vecFlat_spec (simplify cfg fuel {}) size (fun e r he h => ih.simplify {} e he r h)
+      l [] early l1 ((WFList_iff l size).mp hwl) (by intro x hx; cases hx) ht
+    dsimp only
+    split
+    · rename_i ee
+      have := f1 ee rfl
+      exact Post_pure this.1 this.2
+    · obtain ⟨g1, g2⟩ := f2 rfl
+      apply Post_bind; intro l2 hl2
+      obtain ⟨d1, d2⟩ := vecDedup_spec (api cfg fuel Op.eq) (fun x => WF x ∧ x.size = size) l1 [] l2 g1
+        (by intro x hx; cases hx) hl2
+      have hl2ne : l2 ≠ [] := d2 (Or.inr (g2 (Or.inr hne)))
+      split
+      · rename_i x
+        have := d1 x List.mem_cons_self
+        exact Post_pure this.1 this.2
+      · split
+        · exact Post_pure (by simp only [WF]; exact ⟨hpos, hl2ne, (WFList_iff _ _).mpr d1⟩) rfl
+        · split
+          · exact Post_pure (WF_mkTop hpos) rfl
+          · exact Post_pure (by simp only [WF]; exact ⟨hpos, hl2ne, (WFList_iff _ _).mpr d1⟩) rfl
+
 end steps
+
+/-- every function of the mutual block, at every fuel, returns well-formed results of the dictated width -/
+theorem widthIH_all (fuel : Nat) : WidthIH cfg fuel := by
+  induction fuel with
+  | zero => exact widthIH_zero cfg
+  | succ n ih =>
+    exact {
+      simplify := simplify_step ih
+      eqn1 := eqn1_step ih
+      eqn2 := eqn2_step ih
+      eqn2norm := eqn2norm_step ih
+      normL := fun o l r size sf prop hw => normL_step ih o l r size sf prop hw
+      normR := fun o l r size sf prop hw => normR_step ih o l r size sf prop hw
+      eqn2cst := fun opts o l rv rs rf size sf prop hw => eqn2cst_step ih opts o l rv rs rf size sf prop hw
+      eqn2snd := eqn2snd_step ih
+      eqn2tail := eqn2tail_step ih
+      oper := oper_step ih
+      operU := operU_step ih
+      apiNeg := apiNeg_step ih
+      apiNot := apiNot_step ih
+      api := api_step ih
+      apiExp := apiExp_step ih
+      callOp := callOp_step ih
+      callUop := callUop_step ih
+      helperCmp := helperCmp_step ih
+      helperRot := helperRot_step ih
+      getitem := getitem_step ih
+      slicer := slicer_step ih
+      mkSlc := mkSlc_step ih
+      setitem := fun n sf ps a b v r hd hw hv h => setitem_step ih n sf ps a b v r hd hw hv h
+      composer := composer_step ih
+      extendExp := extendExp_step ih }
 
 end Amoco
